@@ -131,6 +131,33 @@ class Check:
                       node, extra, what=what)
         return bool(cond)
 
+    def shared(self, rid, desc, *fns):
+        """Run rule functions that belong to other properties and book
+        everything they produce under ``rid`` of this property."""
+        n_ob, n_v, n_fl = (len(self.obligations), len(self.violations),
+                           len(self.floors))
+        before = dict(self.rules)
+        for fn in fns:
+            fn(self)
+        src = sorted(r for r in self.rules if r not in before)
+        for o in self.obligations[n_ob:]:
+            o['rule'] = rid
+        for v in self.violations[n_v:]:
+            v.rule = rid
+        for f in self.floors[n_fl:]:
+            f['rule'] = rid
+        for r in src:
+            self.rules.pop(r)
+        self.rules[rid] = desc + (' (shared with %s)' % ', '.join(src)
+                                  if src else '')
+        # relabelling can create duplicates of violations already present
+        seen, out = set(), []
+        for v in self.violations:
+            if v.key() not in seen:
+                seen.add(v.key())
+                out.append(v)
+        self.violations = out
+
     def floor(self, rule, count, minimum, what):
         self.floors.append({'rule': rule, 'count': count, 'floor': minimum,
                             'what': what})
